@@ -595,6 +595,14 @@ theorem ev_good : ∀ s : Sp, supported ptm s = true → ∃ o, ev ptm s = .ok o
     exact ⟨.finst (.tuplePos [denote x, denote y] false),
       by simp [ev, hex, hey, tupleItem_good gx h.1.2, tupleItem_good gy h.2, mkItems],
       good_finst _ _ rfl rfl⟩
+  | pipeLit x v n ih =>
+    intro h
+    simp only [supported, Bool.and_eq_true] at h
+    obtain ⟨ox, hev, g⟩ := ih h.1.1
+    have hfo : isFieldObj ox = true := by rw [g.fo]; exact h.1.2
+    exact ⟨.finst (.anyOf [denote x, .enumLit [v]]),
+      by simp [ev, hev, hfo, getItem_fieldObj g.gt (by simp [hfo])],
+      good_finst _ _ rfl (by simp [isFieldExpr, h.1.2])⟩
 
 theorem sameMeaning_denote {s t : Sp} (h : SameMeaning s t) : denote s = denote t := by
   induction h with
@@ -611,6 +619,9 @@ theorem sameMeaning_denote {s t : Sp} (h : SameMeaning s t) : denote s = denote 
   | alt f g _ _ ihx ihy => cases f <;> cases g <;> simp [mkAlt, denote, ihx, ihy]
   | scls d n m => rfl
   | tup f g _ _ ihx ihy => cases f <;> cases g <;> simp [mkTup, denote, ihx, ihy]
+  | pipeLit v n m _ ih => simp [denote, ih]
+  | pipeLitAnyOf v n m _ ih => simp [denote, ih]
+  | anyOfPipeLit v n m _ ih => simp [denote, ih]
 
 theorem kwAllowed_fieldExpr {s : Sp} (h : kwAllowed s = true) : isFieldExpr s = true := by
   cases s <;> simp [kwAllowed] at h <;> rfl
@@ -673,19 +684,28 @@ theorem elabField_meaning' (O : Oracles) (future : Bool) (fs : FieldSp)
       simp [finishField, hd.1]
     | kw v n =>
       simp only [Bool.and_eq_true, Bool.or_eq_true] at hd
-      obtain ⟨⟨hsc, hkw⟩, hok⟩ := hd
+      obtain ⟨⟨hkd, hkw⟩, hok⟩ := hd
       have ho := g.ki hkw
       subst ho
-      simp only [evTop, hev, bindE_ok, hkw, hsc, fieldMeaning, DefaultSp.value, applyKw]
-      by_cases ht : truthy v = true
-      · cases htd : tryDefault O (denote ty) v with
-        | error e => simp [ht]
-        | ok u => simp [ht, annField, isFieldObj, getItem, finishField, eqResult_scalar _ _ hsc]
-      · have hok' : defaultOk O (denote ty) v = true := by
-          rcases hok with hok | hok
-          · exact absurd hok ht
-          · exact hok
-        simp [ht, tryDefault_of_ok hok', annField, isFieldObj, getItem, finishField, eqResult_scalar _ _ hsc]
+      have hfe : isFieldExpr ty = true := kwAllowed_fieldExpr hkw
+      by_cases hn : v.isNone = true
+      · have hv : v = .none := by cases v <;> simp [PyVal.isNone] at hn ⊢
+        subst hv
+        simp [evTop, hev, hkw, kwDefault, PyVal.isNone, fieldMeaning, DefaultSp.value, applyKw, truthy, annField,
+          isFieldObj, getItem, finishField, effOptional, hfe]
+      · have hn' : v.isNone = false := by simpa using hn
+        have hsc : scalarDefault v = true := by simpa [kwDefault, hn'] using hkd
+        simp only [evTop, hev, bindE_ok, hkw, hkd, fieldMeaning, DefaultSp.value, applyKw, hn']
+        by_cases ht : truthy v = true
+        · cases htd : tryDefault O (denote ty) v with
+          | error e => simp [ht, htd]
+          | ok u => simp [ht, htd, annField, isFieldObj, getItem, finishField, eqResult_scalar _ _ hsc, hn']
+        · have hok' : defaultOk O (denote ty) v = true := by
+            rcases hok with (hok | hok) | hok
+            · exact absurd hok ht
+            · simp [hn'] at hok
+            · exact hok
+          simp [ht, tryDefault_of_ok hok', annField, isFieldObj, getItem, finishField, eqResult_scalar _ _ hsc, hn']
     | eqF p n =>
       simp only [evTop, hev, bindE_ok, fieldMeaning, DefaultSp.value, effOptional]
       have htag : ∀ opt, eqResult (denote ty) opt factoryTag = .field (denote ty) false (some factoryTag) :=
@@ -726,19 +746,27 @@ theorem elabField_meaning' (O : Oracles) (future : Bool) (fs : FieldSp)
     | eq v n => simp at hd
     | kw v n =>
       simp only [Bool.and_eq_true, Bool.or_eq_true] at hd
-      obtain ⟨⟨hsc, hkw⟩, hok⟩ := hd
+      obtain ⟨⟨hkd, hkw⟩, hok⟩ := hd
       have ho := g.ki hkw
       subst ho
-      simp only [evTop, hev, bindE_ok, hkw, hsc, fieldMeaning, DefaultSp.value, applyKw]
-      by_cases ht : truthy v = true
-      · cases htd : tryDefault O (denote ty) v with
-        | error e => simp [ht]
-        | ok u => simp [ht, assignField, finishFieldNoCheck, eqResult_scalar _ _ hsc]
-      · have hok' : defaultOk O (denote ty) v = true := by
-          rcases hok with hok | hok
-          · exact absurd hok ht
-          · exact hok
-        simp [ht, tryDefault_of_ok hok', assignField, finishFieldNoCheck, eqResult_scalar _ _ hsc]
+      by_cases hn : v.isNone = true
+      · have hv : v = .none := by cases v <;> simp [PyVal.isNone] at hn ⊢
+        subst hv
+        simp [evTop, hev, hkw, kwDefault, PyVal.isNone, fieldMeaning, DefaultSp.value, applyKw, truthy, assignField,
+          finishFieldNoCheck, effOptional]
+      · have hn' : v.isNone = false := by simpa using hn
+        have hsc : scalarDefault v = true := by simpa [kwDefault, hn'] using hkd
+        simp only [evTop, hev, bindE_ok, hkw, hkd, fieldMeaning, DefaultSp.value, applyKw, hn']
+        by_cases ht : truthy v = true
+        · cases htd : tryDefault O (denote ty) v with
+          | error e => simp [ht, htd]
+          | ok u => simp [ht, htd, assignField, finishFieldNoCheck, eqResult_scalar _ _ hsc, hn']
+        · have hok' : defaultOk O (denote ty) v = true := by
+            rcases hok with (hok | hok) | hok
+            · exact absurd hok ht
+            · simp [hn'] at hok
+            · exact hok
+          simp [ht, tryDefault_of_ok hok', assignField, finishFieldNoCheck, eqResult_scalar _ _ hsc, hn']
     | eqF p n => simp at hd
     | kwF p n =>
       have hkw : kwAllowed ty = true := hd
